@@ -3,7 +3,7 @@
 //!
 //! `jaqmon threads <request.json>` prints one JSON summary. Request:
 //! `{"threads":T,"reps":R,"seed":s,"jitter":0..3,"take":N,"lockstep":bool,
-//!   "compile_during":bool,"share_values":bool,"dump_expected":bool,"defs":"all"|"core","compile_limit":n,"summary_path":file,
+//!   "compile_during":bool,"share_values":bool,"dump_expected":bool,"defs":"all"|"core","compile_limit":n,"summary_path":file,"light":bool,
 //!   "programs":[{"prog":text,"vars":[[name,wire]..],"inputs":[wire..]}..]}`
 //!
 //! Phases: (1) every program is compiled ONCE; (2) isolated baseline on the main thread,
@@ -213,7 +213,13 @@ fn compile_outcome(p: &Prog, core_defs: bool) -> (Option<Filter>, String) {
 }
 
 /// isolated runs of every (program, input) on the calling thread, programs in the given order
-fn baseline(progs: &[Prog], filters: &[Option<Filter>], take: usize, order: &[usize]) -> Vec<Vec<(String, String)>> {
+fn baseline(
+    progs: &[Prog],
+    filters: &[Option<Filter>],
+    take: usize,
+    order: &[usize],
+    twice: bool,
+) -> Vec<Vec<(String, String)>> {
     let mut rows: Vec<Vec<(String, String)>> = progs.iter().map(|_| Vec::new()).collect();
     for &pi in order {
         let p = &progs[pi];
@@ -222,7 +228,11 @@ fn baseline(progs: &[Prog], filters: &[Option<Filter>], take: usize, order: &[us
             for ii in 0..p.inputs.len() {
                 let mut rng = Rng(0);
                 let a = run_one(f, &vars, p.dec_input(ii), take, &mut rng, ISOLATED, 0, None).0;
-                let b = run_one(f, &vars, p.dec_input(ii), take, &mut rng, ISOLATED, 0, None).0;
+                let b = if twice {
+                    run_one(f, &vars, p.dec_input(ii), take, &mut rng, ISOLATED, 0, None).0
+                } else {
+                    a.clone()
+                };
                 rows[pi].push((a, b));
             }
         }
@@ -248,6 +258,8 @@ pub fn main(args: &[String]) {
     let compile_during = req["compile_during"].as_bool().unwrap_or(false);
     // how many programs the compile-while-running thread compiles per repetition
     let compile_limit = req["compile_limit"].as_u64().map_or(usize::MAX, |n| n as usize);
+    // light: one isolated run per pair instead of two, no isolated re-run afterwards (Miri)
+    let light = req["light"].as_bool().unwrap_or(false);
     let core_defs = req["defs"].as_str() == Some("core");
     let share_values = req["share_values"].as_bool().unwrap_or(false) && cfg!(feature = "sync");
     let empty = Vec::new();
@@ -288,7 +300,7 @@ pub fn main(args: &[String]) {
 
     // (2) isolated baseline (single thread, no jitter), twice: determinism
     let fwd: Vec<usize> = (0..progs.len()).collect();
-    let base = baseline(&progs, &filters, take, &fwd);
+    let base = baseline(&progs, &filters, take, &fwd, !light);
     let mut nondet = Vec::new();
     let mut isolated_panics = Vec::new();
     let mut outcome_classes: BTreeMap<String, u64> = BTreeMap::new();
@@ -297,7 +309,7 @@ pub fn main(args: &[String]) {
     for (pi, row) in base.into_iter().enumerate() {
         let mut e = Vec::new();
         for (ii, (a, b)) in row.into_iter().enumerate() {
-            isolated_runs += 2;
+            isolated_runs += if light { 1 } else { 2 };
             if a != b {
                 nondet.push(json!({"prog": pi, "input": ii, "first": clip(&a), "second": clip(&b)}));
             }
@@ -476,7 +488,11 @@ pub fn main(args: &[String]) {
 
     // (4) isolated again, in reverse program order: nothing that ran in between left a trace
     let rev: Vec<usize> = (0..progs.len()).rev().collect();
-    let post = baseline(&progs, &filters, take, &rev);
+    let post = if light {
+        Vec::new()
+    } else {
+        baseline(&progs, &filters, take, &rev, true)
+    };
     let mut post_mismatches = Vec::new();
     for (pi, row) in post.iter().enumerate() {
         for (ii, (a, b)) in row.iter().enumerate() {
@@ -521,7 +537,7 @@ pub fn main(args: &[String]) {
     let out = json!({
         "expected": expected_dump,
         "threads": threads, "reps": reps, "programs": progs.len(), "pairs": pairs.len(),
-        "lockstep": lockstep, "jitter": level, "take": take, "defs": if core_defs { "core" } else { "all" },
+        "lockstep": lockstep, "jitter": level, "take": take, "light": light, "defs": if core_defs { "core" } else { "all" },
         "compiled": filters.iter().filter(|f| f.is_some()).count(),
         "compile_errors": compile_errors,
         "isolated_runs": isolated_runs, "isolated_panics": isolated_panics,
